@@ -609,13 +609,47 @@ def emit_v(instrs, path: Path) -> str:
     return "\n".join(o) + "\n"
 
 
+
+def translate_probes(probes):
+    """probe fragments (harness/c14_probes.py) through the same parser; -> list shaped like translate_all()'s."""
+    known = modelled_intrinsics()
+    out = []
+    for pr in probes:
+        frag, calls, unknown = parse_fragment(pr["name"], pr["fmt"], pr["sig"], known)
+        if unknown:
+            raise Unsupported(pr["name"], "probe calls unmodelled intrinsics %s" % unknown)
+        out.append(dict(name=pr["name"], sig=pr["sig"], preds=[], unit_stride=[], frag=frag, body=[],
+                        calls=calls, unmodelled=[], c_instr=pr["fmt"], opt=pr.get("opt", {})))
+    return out
+
+
+def emit_probes_v(probes) -> str:
+    o = ["(* GENERATED by translator/py2coq_x86.py from harness/c14_probes.py -- do not edit *)",
+         "From Coq Require Import ZArith List String.", "From X86 Require Import Model.", "Import ListNotations.",
+         "Open Scope Z_scope.\nOpen Scope string_scope.\n"]
+    for I in probes:
+        sig = "[" + "; ".join('("%s", %s)' % (a["name"], gal(akind(a))) for a in I["sig"]) + "]"
+        o.append("Definition %s : instr := {| iname := \"%s\"; isig := %s; ipreds := []; ifrag := %s; ibody := [] |}."
+                 % (I["name"], I["name"], sig, gal(I["frag"])))
+    o.append("Definition all_probes : list instr := [%s]." % "; ".join(I["name"] for I in probes))
+    return "\n".join(o) + "\n"
+
+
 def sidecar(instrs):
     js = []
     for I in instrs:
         js.append(dict(name=I["name"], sig=I["sig"], preds=sx(I["preds"]), preds_ast=I["preds"],
                        unit_stride=I["unit_stride"], calls=I["calls"], unmodelled=I["unmodelled"],
-                       c_instr=I["c_instr"], frag=sx(I["frag"]), body=sx(I["body"])))
+                       c_instr=I["c_instr"], frag=sx(I["frag"]), body=sx(I["body"]), opt=I.get("opt", {})))
     return js
+
+
+def write_if_changed(path: Path, text: str):
+    """keep the mtime when nothing changed, so that `make` does not re-check every proof on every run"""
+    if path.exists() and path.read_text() == text:
+        return False
+    path.write_text(text)
+    return True
 
 
 def main(argv):
@@ -625,9 +659,18 @@ def main(argv):
     except Unsupported as e:
         print("py2coq_x86: FAIL CLOSED: %s" % e, file=sys.stderr)
         return 2
-    (outdir / "Gen_X86Instrs.v").write_text(emit_v(instrs, path))
+    write_if_changed(outdir / "Gen_X86Instrs.v", emit_v(instrs, path))
     (outdir / "_build").mkdir(exist_ok=True)
     (outdir / "_build" / "instrs.json").write_text(json.dumps(sidecar(instrs), indent=1))
+    sys.path.insert(0, str(VERIF / "harness"))
+    try:
+        import c14_probes
+        probes = translate_probes(c14_probes.PROBES)
+    except Unsupported as e:
+        print("py2coq_x86: FAIL CLOSED (probe table): %s" % e, file=sys.stderr)
+        return 3
+    write_if_changed(outdir / "Gen_X86Probes.v", emit_probes_v(probes))
+    (outdir / "_build" / "probes.json").write_text(json.dumps(sidecar(probes), indent=1))
     unm = [I["name"] for I in instrs if I["unmodelled"]]
     print("py2coq_x86: %d instructions translated, %d unmodelled%s" % (len(instrs) - len(unm), len(unm),
                                                                       (": " + ", ".join(unm)) if unm else ""))
